@@ -1794,15 +1794,25 @@ size_t rtosc_scan_arg_val(const char* src,
                 src+=rd;
                 float secfracsf;
 
+                // only take the time if it is complete (a following number
+                // like in "1970-01-02 5" is the next argument)
+                int hour, min, sec;
                 rd = 0;
-                sscanf(src, " %2d:%2d%n", &m_tm.tm_hour, &m_tm.tm_min, &rd);
+                sscanf(src, " %2d:%2d%n", &hour, &min, &rd);
                 if(rd)
-                 src+=rd;
+                {
+                    src+=rd;
+                    m_tm.tm_hour = hour;
+                    m_tm.tm_min = min;
 
-                rd = 0;
-                sscanf(src, ":%2d%n", &m_tm.tm_sec, &rd);
-                if(rd)
-                 src+=rd;
+                    rd = 0;
+                    sscanf(src, ":%2d%n", &sec, &rd);
+                    if(rd)
+                    {
+                        src+=rd;
+                        m_tm.tm_sec = sec;
+                    }
+                }
 
                 uint64_t secfracs;
 
